@@ -243,6 +243,9 @@ FAMILIES = [
     Fam("v_not_in", _v("not-in", ["a", "b"]), [_res("b"), _res("z")]),
     Fam("v_size", lambda i: {"type": "value", "key": K(i), "op": "gt", "value": 1, "value_type": "size"},
         [_res(["x"]), _res(["x", "y"])]),
+    # the presence tests translate to helper calls: their results must combine under && || ! like any other clause
+    Fam("v_present", lambda i: {"type": "value", "key": K(i), "value": "present"}, [_res(""), _res("x")], rep=True),
+    Fam("v_absent", lambda i: {"type": "value", "key": K(i), "value": "absent"}, [_res("x"), _res("")]),
     # -- compound families
     Fam("marked", lambda i: {"type": "marked-for-op", "tag": f"t{i}", "op": "stop"},
         [_world(("marked", lambda i: f"t{i}"), ("other", PAST)), _world(("marked", lambda i: f"t{i}"), ("stop", PAST)),
@@ -364,7 +367,9 @@ def prog(text):
     if p is None:
         if len(_PROGS) > 4000:
             _PROGS.clear()
-        p = _PROGS[text] = celrun.Prog("I", text, functions=STUBS)
+        import celpy.c7nlib as c7nlib
+        # present / absent are pure helpers: the library's own implementations are used, everything else is a stub
+        p = _PROGS[text] = celrun.Prog("I", text, functions=dict(STUBS, present=c7nlib.present, absent=c7nlib.absent))
     return p
 
 
